@@ -8,3 +8,27 @@ REG.lemma('C19', 'L19.vcmp_zero_iff_eq', {'a': SeqIS, 'b': SeqIS, 'k': Int},
           goal='(vcmp(a, b, k) == 0) == seq_eq_from(a, b, k)',
           ih=[{'k': 'k + 1'}], measure='len(a) - k',
           note='comparison says "equal" exactly when the component tuples are equal (Python tuple ==) from index k on')
+
+REG.lemma('C19', 'L19.range', {'a': SeqIS, 'b': SeqIS, 'k': Int}, requires=['k >= 0'],
+          goal='-1 <= vcmp(a, b, k) and vcmp(a, b, k) <= 1', ih=[{'k': 'k + 1'}], measure='len(a) - k',
+          note='the comparison result is one of -1, 0, 1: with L19.vcmp_zero_iff_eq exactly one of <, ==, > holds')
+REG.lemma('C19', 'L19.antisym', {'a': SeqIS, 'b': SeqIS, 'k': Int}, requires=['k >= 0'],
+          goal='vcmp(a, b, k) == -vcmp(b, a, k)', ih=[{'k': 'k + 1'}], measure='len(a) - k',
+          note='a < b iff b > a, a <= b iff b >= a')
+REG.lemma('C19', 'L19.trans', {'a': SeqIS, 'b': SeqIS, 'c': SeqIS, 'k': Int}, requires=['k >= 0', 'vcmp(a, b, k) <= 0', 'vcmp(b, c, k) <= 0'],
+          goal='vcmp(a, c, k) <= 0 and implies(vcmp(a, b, k) < 0 or vcmp(b, c, k) < 0, vcmp(a, c, k) < 0)',
+          ih=[{'k': 'k + 1'}], measure='len(a) - k',
+          note='transitivity of <= and of < (strictness is inherited)')
+REG.lemma('C19', 'L19.prefix', {'a': SeqIS, 'b': SeqIS, 'k': Int},
+          requires=['k >= 0', 'k <= len(b)', 'len(a) > len(b)', 'eq_range(a, b, k, len(b))'],
+          goal='vcmp(a, b, k) == 1', ih=[{'k': 'k + 1'}], measure='len(b) - k',
+          note='a longer version with an equal prefix is greater')
+REG.lemma('C19', 'L19.le_is_lt_or_eq', {'c': Int},
+          goal='apply_op(operator.le, c) == (apply_op(operator.lt, c) or apply_op(operator.eq, c)) and apply_op(operator.ge, c) == (apply_op(operator.gt, c) or apply_op(operator.eq, c)) and apply_op(operator.ne, c) == (not apply_op(operator.eq, c))',
+          note='<= is < or ==; >= is > or ==; != is not ==')
+REG.lemma('C19', 'L19.number_above_word', {'x': IS, 'y': IS}, requires=['isinstance(x, int)', 'isinstance(y, str)'],
+          goal='cmpc(x, y) == 1 and cmpc(y, x) == -1',
+          note='numeric components rank above alphabetic ones')
+REG.lemma('C19', 'L19.numeric', {'x': IS, 'y': IS, 'i': Int, 'j': Int}, requires=['isinstance(x, int)', 'isinstance(y, int)', 'x == i', 'y == j'],
+          goal='(cmpc(x, y) < 0) == (i < j) and (cmpc(x, y) == 0) == (i == j)',
+          note='numeric components compare numerically')
